@@ -94,4 +94,29 @@ def obsRtc (t : Tie) (faulty : Ev → Option Nat) : Rtc ObsState := fun s ev =>
     if ev.isColangError && t.headMayMatch ev.cls then .ok { reactions := s.reactions + 1, delivered := s.delivered + 1 }
     else .ok { s with delivered := s.delivered + 1 }
 
+/-! ### the guard of the repaired `_resolve_action_conflicts` (fixes/C10-escaping-statement-errors.diff)
+
+  `_fail_heads_with_invalid_action_event`: the action event of every actionable head is built once inside try/except; a head whose
+  event cannot be created gets a ColangError and its flow is aborted (`kills f` = the flows `_abort_flow` stops with `f`: itself and its
+  descendants); heads of flows stopped in the meantime are skipped; the survivors go on to the conflict resolution. -/
+
+structure AHead where
+  uid : Nat
+  flow : Nat
+  deriving Repr, DecidableEq
+
+/-- (stopped flows, queued error classes) after the scan of the heads -/
+def failInvalid (build : AHead → Option Nat) (kills : Nat → List Nat) : List AHead → List Nat → List Nat → List Nat × List Nat
+  | [], stopped, errs => (stopped, errs)
+  | h :: rest, stopped, errs =>
+    if stopped.contains h.flow then failInvalid build kills rest stopped errs
+    else match build h with
+      | none => failInvalid build kills rest stopped errs
+      | some e => failInvalid build kills rest (stopped ++ kills h.flow) (errs ++ [e])
+
+/-- the heads handed to the conflict resolution and the ColangError reports queued -/
+def guardHeads (build : AHead → Option Nat) (kills : Nat → List Nat) (heads : List AHead) : List AHead × List Nat :=
+  let r := failInvalid build kills heads [] []
+  (heads.filter fun h => !r.1.contains h.flow, r.2)
+
 end NemoVerif.ProcessEvents
